@@ -85,7 +85,11 @@ func check1(c Case, mixed bool) evid.Outcome {
 			first[key], firstAt[key] = res, i
 		}
 		// (b) the same single call on a fresh set built from the same definitions
-		fresh := hist.Fresh(h, hist.Lineage(h, results, i), op)
+		fop := op
+		if fop.Via == "" {
+			fop.Via = hist.RootVia(h, results, op.Set)
+		}
+		fresh := hist.Fresh(h, hist.Lineage(h, results, i), fop)
 		if !same(fresh, res) {
 			v := evid.Viol("step %d %+v (template %q): result %s differs from the same call on a freshly built set with the same definitions: %s\nhistory: %+v", i, op, name, show(res), show(fresh), h.Ops)
 			if mixed {
@@ -104,7 +108,7 @@ func check1(c Case, mixed bool) evid.Outcome {
 }
 
 func gen(t *rapid.T) Case {
-	return Case{*hist.Gen(t, hist.Options{MaxOps: 12, BadMembers: rapid.IntRange(0, 2).Draw(t, "bad") == 0, RuntimeBad: true, Unbalanced: rapid.IntRange(0, 2).Draw(t, "unbalanced") == 0, ReadOnlyOps: true, ParseAfter: true, Clones: rapid.IntRange(0, 3).Draw(t, "clones") == 0})}
+	return Case{*hist.Gen(t, hist.Options{CSP: true, MaxOps: 12, BadMembers: rapid.IntRange(0, 2).Draw(t, "bad") == 0, RuntimeBad: true, Unbalanced: rapid.IntRange(0, 2).Draw(t, "unbalanced") == 0, ReadOnlyOps: true, ParseAfter: true, Clones: rapid.IntRange(0, 3).Draw(t, "clones") == 0})}
 }
 
 // genMixed: the K-rederive zone (a helper needed in text and in attribute contexts).
